@@ -1,9 +1,12 @@
 import H8.Drv.Cost
+import H8.Drv.Bus
 open H8.Drv
 
 def handle (line : String) : String :=
   match line.trimAscii.toString.splitOn " " with
   | "cost" :: rest => costLine rest
+  | ["bus09", ops] => bus09Line ops
+  | "sweep09" :: rest => sweep09Line rest
   | _ => "bad-case"
 
 partial def loop (hin : IO.FS.Stream) (hout : IO.FS.Stream) : IO Unit := do
